@@ -97,6 +97,43 @@ def generate(g, tier):
         nb = r.randint(0, 3)
         bad = [r.choice(['', ' ', '\t']) for _ in range(nb)] + [unit + 'STRING orphan', 'STRING next']
         cases.append(dict(op='compile', src=dict(text='\n'.join(bad)), meta=dict(family='ill-first', badline=nb + 1)))
+    # a group belongs to the command line right above it — and to no other: a command whose own output is dropped (REM with
+    # comments off), a bare command, an unknown command, each with a group, after lines with and without groups of their own
+    for _ in range(count(tier, 60, 600)):
+        unit = g.units()
+        prev = r.choice([['STRING a'], ['STRING a', unit + 'a2'], ['ENTER'], ['IF TRUE', unit + 'STRING in-if'], ['HOLD x'], []])
+        prev_out = {'STRING a': ['STRING a'], 'ENTER': ['ENTER'], 'IF TRUE': ['STRING in-if'], 'HOLD x': ['HOLD x']}.get(prev[0] if prev else '', [])
+        if prev == ['STRING a', unit + 'a2']: prev_out = ['STRING a', 'STRING a2']
+        owner = r.choice(['REM', 'rem', 'REM first', 'PRINT', 'PASS-LIKE'])
+        comments = g.chance(0.4)
+        body = [f'note {k}' for k in range(r.randint(1, 3))]
+        if owner == 'PASS-LIKE':
+            lines = prev + ['VAR q 1'] + ['STRING b']; out = prev_out + ['STRING b']
+        else:
+            lines = prev + [owner] + [unit + b for b in body] + ['STRING b']
+            if owner.lower().startswith('rem'):
+                first = ['REM first'] if owner == 'REM first' else []
+                out = prev_out + ((first + ['REM ' + b for b in body]) if comments else []) + ['STRING b']
+            else:
+                out = prev_out + ['STRING b']
+        cases.append(dict(op='compile', opts=dict(include_comments=True) if comments else (None if g.chance(0.5) else dict(include_comments=False)),
+                          src=dict(text='\n'.join(lines)), meta=dict(family='group-owner', expout=out)))
+    # blank and whitespace-only lines never matter — inside verbatim (`"""`) groups either, under any command and at any depth
+    for _ in range(count(tier, 80, 800)):
+        unit = g.units()
+        depth = r.randint(0, 2)
+        cmd = r.choice(['STRING', 'STRINGLN', 'HOLD', 'ALTSTRING', 'IGNORE'])
+        base = unit * depth
+        lines = [unit * d + 'IF TRUE' for d in range(depth)] + [base + cmd, base + unit + '"""']
+        out = []
+        for k in range(r.randint(1, 5)):
+            if g.chance(0.4): lines.append(r.choice(['', ' ', '\t', base + unit, base + unit + '  ', unit * 5]))
+            t = r.choice(['x', 'y z', '  deeper', 'IF q', '$v']) + str(k)
+            lines.append(base + unit + t)
+            out.append(t if cmd == 'IGNORE' else f'{cmd} ' + (t.strip() if cmd in ('HOLD', 'ALTSTRING') else t))
+        if g.chance(0.4): lines.append(r.choice(['', '  ', base + unit]))
+        lines.append(base + unit + '"""')
+        cases.append(dict(op='compile', src=dict(text='\n'.join(lines)), meta=dict(family='blank-in-verbatim', expout=out)))
     return cases
 
 
@@ -116,6 +153,11 @@ def oracle(cases, results):
                 fs.append(fail(i, f'well-indented program rejected ({fam}): {r.get("cls", r.get("exc"))} {r.get("msg", "")}', f'{fam}:rejected:{r.get("cls", r.get("exc"))}'))
             elif r['out'] != m['exp']:
                 fs.append(fail(i, f'output differs ({fam}): expected {m["exp"][:10]} got {r["out"][:10]}', f'{fam}:output'))
+        elif 'expout' in m:
+            if r.get('kind') != 'ok':
+                fs.append(fail(i, f'well-indented program rejected ({fam}): {r.get("cls", r.get("exc"))} {r.get("msg", "")}', f'{fam}:rejected:{r.get("cls", r.get("exc"))}'))
+            elif r['out'] != m['expout']:
+                fs.append(fail(i, f'output differs ({fam}): expected {m["expout"][:10]} got {r["out"][:10]}', f'{fam}:output'))
         elif fam.startswith('ill'):
             if r.get('kind') != 'cerr' or r.get('cls') != 'InvalidTabError':
                 fs.append(fail(i, f'ill-indented text ({fam}, line {m["badline"]}) not rejected with a tab error: {r.get("kind")} {r.get("cls", "")} out={r.get("out")}', f'{fam}:accepted'))
